@@ -176,3 +176,142 @@ def c10_corr(res, exe, driver, tier, seed, tmp):
                 "Compared with the model: result of every op, the session's entries, the file bytes.")
     res.distribution = {"kinds": kinds}
     res.samples = [{"case": c[0], "impl": r} for c, r in list(zip(cases, impl))[:: max(1, len(cases) // 5)]][:5]
+
+
+# ------------------------------------------------------------------ C12
+
+def c12_pass1(tier, seed):
+    rng = random.Random(seed * 31 + 5)
+    n = 1500 if tier == "thorough" else 250
+    out = []
+    for _ in range(n):
+        cfg = cfg_tok(rng, maxes=(3, 5, 10, 100))
+        alpha = rng.choice([ALPHA10, SMALL])
+        mk = lambda: enc(rand_entry(rng, alpha, rng.choice([3, 6, 12])))
+        kind = rng.choice(["save", "append_fast", "append_rewrite"])
+        ops = ["new 0 " + cfg] + ["add 0 " + mk() for _ in range(rng.randint(1, 5))]
+        if kind == "save":
+            ops += ["save 0"]
+            w = 0
+        elif kind == "append_fast":
+            ops += ["save 0", "new 1 " + cfg, "load 1"] + ["add 1 " + mk() for _ in range(rng.randint(1, 3))] + ["append 1"]
+            w = 1
+        else:
+            # another session rewrites the file in between, so the mtime/size check sends append down the rewrite path
+            ops += ["save 0", "new 1 " + cfg, "load 1", "add 0 " + mk(), "save 0"]
+            ops += ["add 1 " + mk() for _ in range(rng.randint(1, 3))] + ["append 1"]
+            w = 1
+        out.append((" ; ".join(ops), kind, cfg))
+    return out
+
+
+def is_char_prefix(a, b):
+    return len(a) <= len(b) and b[:len(a)] == a
+
+
+def unescape_py(l):
+    out, i = [], 0
+    while i < len(l):
+        if l[i] == 0x5c:
+            if i + 1 >= len(l):
+                return out
+            m = {0x6e: 0x0a, 0x5c: 0x5c, 0x72: 0x0d}.get(l[i + 1])
+            if m is None:
+                return None
+            out.append(m)
+            i += 2
+        else:
+            out.append(l[i])
+            i += 1
+    return out
+
+
+def c12_corr(res, exe, driver, tier, seed, tmp):
+    rng = random.Random(seed * 17 + 11)
+    p1 = c12_pass1(tier, seed)
+    impl1, parsed1 = run_fhist(res, exe, driver, [c[0] for c in p1], tmp, tag="fhist-write")
+    cases = []
+    kinds = {}
+    for (case, kind, cfg), (ticks, obs) in zip(p1, parsed1):
+        final = obs[-1]
+        if final[2] is None or final[0] != "ok":
+            continue
+        F, E = final[2], final[1]
+        ks = list(range(4, len(F) + 1))
+        if tier != "thorough" and len(ks) > 40:
+            ks = sorted(rng.sample(ks[:-1], 39)) + [len(F)]
+        whole = {"E": None}   # the file's logical content = what loading all of it gives (tied to the writer by C10)
+        for k in reversed(ks):
+            c = "put %s ; new 5 %s ; load 5" % (encb(F[:k]), cfg)
+            cases.append((c, "cut", {"whole": whole, "full": k == len(F), "k": k, "kind": kind, "written_by": case}))
+            kinds[kind] = kinds.get(kind, 0) + 1
+    # arbitrary / foreign bytes
+    nrand = 6000 if tier == "thorough" else 1200
+    pool = [0x0a, 0x0a, 0x0d, 0x5c, 0x5c, 0x6e, 0x72, 0x23, 0x56, 0x32, 0x61, 0x20, 0xc3, 0xa9, 0xe6, 0x97, 0xa5,
+            0xf0, 0x9f, 0x98, 0x80, 0xff, 0xc0, 0x80, 0xed, 0xa0, 0x00]
+    for _ in range(nrand):
+        b = [rng.choice(pool) for _ in range(rng.randint(0, 24))]
+        if rng.random() < 0.6:
+            b = [0x23, 0x56, 0x32, 0x0a] + b
+        cfg = cfg_tok(rng)
+        c = "put %s ; new 5 %s ; load 5 ; add 5 7a ; save 5 ; new 6 %s ; load 6" % (encb(b), cfg, cfg)
+        cases.append((c, "bytes", {"data": b}))
+        kinds["bytes"] = kinds.get("bytes", 0) + 1
+    impl, parsed = run_fhist(res, exe, driver, [c[0] for c in cases], tmp, tag="fhist-torn")
+    for (case, kind, meta), raw, (ticks, obs) in zip(cases, impl, parsed):
+        why = None
+        if any(o[0] == "panic" for o in obs):
+            why = "panic"
+        elif kind == "cut":
+            if meta["full"]:
+                meta["whole"]["E"] = obs[2][1]
+            got, E = obs[2][1], meta["whole"]["E"]
+            j = 0
+            while j < len(got) and j < len(E) and got[j] == E[j]:
+                j += 1
+            rest = got[j:]
+            if len(rest) > 1 or (len(rest) == 1 and not (j < len(E) and is_char_prefix(rest[0], E[j]))):
+                why = "torn file (cut at %d, %s): loaded %r, written entries were %r" % (meta["k"], meta["kind"], got, E)
+            if obs[2][0] not in ("ok", "err"):
+                why = "torn file: load result %s" % obs[2][0]
+        else:
+            if obs[2][0] not in ("ok", "err"):
+                why = "arbitrary bytes: load result %s" % obs[2][0]
+            else:
+                # nothing invented: each entry is a complete valid line of the file, verbatim or unescaped, in order
+                data = bytes(meta["data"])
+                parts = data.split(b"\n")
+                term = [True] * (len(parts) - 1) + [False]
+                cands = []
+                for p, t in zip(parts, term):
+                    if t and p.endswith(b"\r"):
+                        p = p[:-1]
+                    try:
+                        l = [ord(ch) for ch in p.decode("utf-8")]
+                    except UnicodeDecodeError:
+                        break
+                    cands.append(l)
+                i = 0
+                for e in obs[2][1]:
+                    while i < len(cands) and not (cands[i] == e or unescape_py(cands[i]) == e):
+                        i += 1
+                    if i >= len(cands):
+                        why = "arbitrary bytes: entry %r does not come from a complete line of the file (in order)" % e
+                        break
+                    i += 1
+                if not why and obs[3][0] != "true":
+                    why = "history not usable after load: add answered %s" % obs[3][0]
+        if why:
+            res.oracle_failures.append({"stream": "fhist-torn", "case": case, "impl": raw, "why": why})
+        if kind == "cut" and not meta["full"]:
+            res.nontrivial.add(case)
+        elif kind == "bytes" and (0x5c in meta["data"] or any(x >= 0x80 for x in meta["data"])):
+            res.nontrivial.add(case)
+    res.rule = ("files written by the implementation itself in save / append-fast-path / append-rewrite-path scenarios "
+                "(random settings and entries over an alphabet with LF, CR, backslash, escape look-alikes, 2/3/4-byte chars), "
+                "then every cut offset >= 4 of each file (quick: at most 40 sampled cuts per file) loaded into a fresh history; "
+                "plus random byte strings (with and without the V2 header) containing invalid UTF-8, lone backslashes, CR/LF "
+                "mixes, NUL, empty and header-only files, followed by add/save/reload to show the history stays usable. "
+                "Non-trivial = a strict prefix of the file (cut) / contains a backslash or a non-ASCII byte (bytes).")
+    res.distribution = {"kinds": kinds}
+    res.samples = [{"case": c[0], "impl": r} for c, r in list(zip(cases, impl))[:: max(1, len(cases) // 4)]][:4]
